@@ -76,6 +76,12 @@ def gen(rng, idx, tier):
     # the same source through the interpolatable TrueType path (two identical masters): the
     # first master must satisfy the same clauses (the joint conversion of identical curves is
     # the single conversion; implied on-curve points are always kept there)
+    # per-glyph TrueType overlap flag (public.truetype.overlap, written by glyphsLib): a flag bit
+    # on the first point / component record, the outline must not depend on it
+    if rng.random() < 0.35:
+        for g in glyphs:
+            if rng.random() < 0.4:
+                g.setdefault("lib", {})["public.truetype.overlap"] = rng.random() < 0.75
     interp = stratum == "default" and opts.get("allQuadratic", True) and rng.random() < 0.12
     if interp:
         opts["dropImpliedOnCurves"] = False
@@ -168,6 +174,8 @@ def run(case):
             continue
         og = glyf[name]
         bump("glyphs_judged")
+        if "public.truetype.overlap" in (g.get("lib") or {}):
+            bump("glyphs_with_overlap_flag_key")
         if g.get("components") or any(fr_nonint(p) for c in g.get("contours", []) for p in c):
             nontrivial = True
         if is_component_only(g):
